@@ -312,6 +312,14 @@ func (e *engine) contractFor(f *ssa.Function) *funcContract {
 	}
 	pc := e.contracts[f.Pkg.Pkg.Path()]
 	if pc == nil {
+		// a function of a package without a contract file (standard library): an assumed
+		// contract `func pkg.Name(...)` may be given in any contract file
+		key := f.Pkg.Pkg.Name() + "." + funcKey(f)
+		for _, pc := range e.contracts {
+			if fc := pc.funcs[key]; fc != nil {
+				return fc
+			}
+		}
 		return nil
 	}
 	return pc.funcs[funcKey(f)]
